@@ -15,24 +15,32 @@ from . import common as C
 from .flow import IntegrateFacts
 
 ID = 'C15'
-TECHNIQUE = ('abstract evaluation of the crossing checks for each of the four values of the two latch bits (finite '
-             'enumeration) to a guarded transition table, compared with the once-only specification; post-dominance of '
-             'the crossing checks and history updates in should_record; dominance of flag clearing and latch setup in '
-             'the loop; literal folding of the flag table')
+TECHNIQUE = ('abstract evaluation of the crossing checks for each of the four values of the two latch bits '
+             '(finite enumeration) to a guarded transition table, compared with the once-only specification; '
+             'should_record evaluated where _integrate calls it, inside one symbolic loop iteration, with the'
+             ' crossing checks replaced by recorders that leave a mark in the state; HitResult.zeros '
+             'evaluated on cards carrying every combination of the flag bits; dominance of flag clearing and '
+             'latch setup in the loop; literal folding of the flag table')
 DECIDED = [
-    'R1 the zero-up (zero-down) flag is raised exactly on the path that sets its latch, only while the latch is clear, '
-    'zero-down only after zero-up is latched, nothing changes at or before the muzzle; the crossing tests are '
-    'y >= x tan(look) and y < x tan(look)',
-    'R2 every sample is examined and no flag leaks: should_record reaches both crossing checks and rewrites all '
-    'previous_* fields on every path; the Mach check always updates its history and flags exactly prev > 1 >= cur; '
-    'clear_current_flag resets the row flags only, precedes should_record in every iteration; setup_seen_zero '
-    'precedes the loop; the recorded row carries the current flags',
+    'R1 the zero-up (zero-down) flag is raised exactly on the path that sets its latch, only while the latch '
+    'is clear, zero-down only after zero-up is latched, nothing changes at or before the muzzle; the crossing'
+    ' tests are y >= x tan(look) and y < x tan(look)',
+    'R2 every sample is examined and no flag leaks: on every outcome of should_record - evaluated at its call'
+    ' site in one symbolic iteration, on a filter with unknown flags and latches - both crossing checks have '
+    'been reached with the position / |V| and speed of sound of the sample, and the four previous_* fields '
+    'hold the sample; the Mach check always updates its history and flags exactly prev > 1 >= cur; '
+    'clear_current_flag resets the row flags only, precedes should_record in every iteration; setup_seen_zero'
+    ' precedes the loop; the recorded row carries the current flags',
     'R3 flag table: distinct powers of two, ZERO and ALL are the unions they claim, the name table agrees, '
-    'HitResult.zeros filters on ZERO',
-    'R1/R2 (flags) every crossing check is also evaluated with RANGE and MACH|RANGE already raised for the sample: the flags must be or-ed, never assigned',
+    'HitResult.zeros returns exactly the rows with a ZERO_UP / ZERO_DOWN bit, in order, and raises on a card '
+    'without one (cards of every flag combination in two orders)',
+    'R1/R2 (flags) every crossing check is also evaluated with RANGE and MACH|RANGE already raised for the '
+    'sample: the flags must be or-ed, never assigned',
 ]
-NOT_DECIDED = ['presence exactly when a crossing occurs, "within one integration step", ordering in time (runtime '
-               'sequence of integration points)']
+NOT_DECIDED = [
+    'presence exactly when a crossing occurs, "within one integration step", ordering in time (runtime '
+    'sequence of integration points)',
+]
 
 UP, DOWN = 1, 2
 
